@@ -720,14 +720,52 @@ func runMARSHAL(c *Ctx, r *Result, rule string) {
 		}
 		sort.Strings(us)
 		o := Obligation{Rule: rule, Key: "ErrUndefined:single-producer", Fn: "jsonata.ErrUndefined", Pos: c.W.Pos(g.Pos()), Nontrivial: true}
-		if len(us) == 1 && us[0] == "(*jsonata.Expr).Eval" {
-			o.Verdict, o.Reason = Discharged, "within the module ErrUndefined is referenced only by Expr.Eval (on the !result.IsValid() path)"
+		// the producer: Eval itself, or a helper that only Eval calls and whose results Eval returns as they are
+		producer := c.fn("jsonata.(*Expr).Eval")
+		if evf := producer; evf != nil && len(us) == 1 && us[0] != shortFn(evf) {
+			if h := c.W.Fn(us[0]); h != nil {
+				if sites, static := c.staticCallers(h); static && len(sites) > 0 {
+					only := true
+					for _, site := range sites {
+						if site.Parent() != evf {
+							only = false
+							continue
+						}
+						// Eval returns the helper's results unchanged
+						call, isCall := site.(*ssa.Call)
+						returned := false
+						if isCall {
+							for _, ref := range *call.Referrers() {
+								if ret, isRet := ref.(*ssa.Return); isRet && len(ret.Results) == 1 && ret.Results[0] == ssa.Value(call) {
+									returned = true
+								}
+								if ex, isEx := ref.(*ssa.Extract); isEx {
+									for _, r2 := range *ex.Referrers() {
+										if ret, isRet := r2.(*ssa.Return); isRet && ex.Index < len(ret.Results) && ret.Results[ex.Index] == ssa.Value(ex) {
+											returned = true
+										}
+									}
+								}
+							}
+						}
+						if !returned {
+							only = false
+						}
+					}
+					if only {
+						producer = h
+					}
+				}
+			}
+		}
+		if len(us) == 1 && producer != nil && us[0] == shortFn(producer) {
+			o.Verdict, o.Reason = Discharged, "within the module ErrUndefined is referenced only by "+shortFn(producer)+" (Expr.Eval's result conversion, on the !result.IsValid() path)"
 		} else {
 			o.Verdict, o.Reason = Finding, fmt.Sprintf("ErrUndefined is referenced by %v: it could be reported for something other than 'no value'", us)
 		}
 		r.Add(o)
 		// and in Eval it is returned exactly under !IsValid()
-		if ev := c.fn("jsonata.(*Expr).Eval"); ev != nil {
+		if ev := producer; ev != nil {
 			ok := false
 			for _, b := range ev.Blocks {
 				for _, ins := range b.Instrs {
@@ -747,7 +785,7 @@ func runMARSHAL(c *Ctx, r *Result, rule string) {
 					}
 				}
 			}
-			o2 := Obligation{Rule: rule, Key: "ErrUndefined:iff-invalid", Fn: "(*jsonata.Expr).Eval", Pos: c.W.Pos(ev.Pos()), Nontrivial: true}
+			o2 := Obligation{Rule: rule, Key: "ErrUndefined:iff-invalid", Fn: shortFn(ev), Pos: c.W.Pos(ev.Pos()), Nontrivial: true}
 			if ok {
 				o2.Verdict, o2.Reason = Discharged, "Eval returns ErrUndefined exactly on the false edge of result.IsValid()"
 			} else {
